@@ -164,15 +164,22 @@ var verifCfgs = []AutoLayoutConfig{
 	{StartX: 0, StartY: 0, ColumnGap: 120, RowGap: 100, ProcessGap: 50},     // gaps exactly the largest node sizes
 	{StartX: 40.5, StartY: 50, ColumnGap: 240, RowGap: 100.5, ProcessGap: 60},
 	{StartX: 1000, StartY: 2000, ColumnGap: 4096, RowGap: 1024, ProcessGap: 65536},
+	{StartX: 10, StartY: 10, ColumnGap: 0, RowGap: 0, ProcessGap: 0}, // degenerate gaps: overlap is allowed, coordinates must still be finite
 }
 
 type verifBox struct{ x, y, w, h float64 }
 
+var verifReuseBuilder bool
+
 func verifC19b(procs, k, types int) {
 	db := NewDefinitionsBuilder()
 	nodes, flows := 0, 0
+	shared := NewProcessBuilder()
 	for p := 0; p < procs; p++ {
-		pb := NewProcessBuilder()
+		pb := shared // one builder used again after Out() ...
+		if !verifReuseBuilder {
+			pb = NewProcessBuilder() // ... or a fresh builder per process
+		}
 		for i := 0; i < k; i++ {
 			verifAddOne(pb, types, i+p*2)
 		}
@@ -212,7 +219,9 @@ func verifC19b(procs, k, types int) {
 		for j := i + 1; j < len(list); j++ {
 			a, b := list[i], list[j]
 			overlap := a.x < b.x+b.w && b.x < a.x+a.w && a.y < b.y+b.h && b.y < a.y+a.h
-			verifAssert(!overlap, "no two shapes overlap when the gaps are at least the node sizes")
+			if cfg.ColumnGap >= 120 && cfg.RowGap >= 100 && cfg.ProcessGap >= 50 {
+				verifAssert(!overlap, "no two shapes overlap when the gaps are at least the node sizes")
+			}
 		}
 	}
 	for i := range plane.BPMNEdgeFields {
@@ -234,6 +243,23 @@ func verifC19b(procs, k, types int) {
 }
 
 func VerifC19b_P1_K2() { verifC19b(1, 2, 3) }
+func VerifC19b_P2_K1_Reuse() {
+	verifReuseBuilder = true
+	verifC19b(2, 1, 2)
+}
+
+// the same process builder used for two processes: the second one is as well-formed as the first
+func VerifC19a_Reuse_K2() {
+	pb := NewProcessBuilder()
+	ids1 := []string{verifAddOne(pb, 2, 0)}
+	p1 := pb.Out()
+	ids2 := []string{verifAddOne(pb, 2, 1), verifAddOne(pb, 2, 2)}
+	p2 := pb.Out()
+	verifReach("built")
+	verifCheckChain(p1, ids1)
+	verifCheckChain(p2, ids2)
+	verifReach("checked")
+}
 func VerifC19b_P2_K1() { verifC19b(2, 1, 2) }
 func VerifC19b_P3_K1() { verifC19b(3, 1, 1) }
 func VerifC19b_P3_K2() { verifC19b(3, 2, 2) }
